@@ -473,6 +473,11 @@ def candidate_case(w):
     if not (S[0] > 0):
         return None
     o = np.array([float(w["origin%d" % d]) for d in range(ndim)])
+    # only candidates of moderate magnitude are conclusive in double precision (the deductive model is over the reals)
+    mags = [abs(float(S[0])), abs(float(w["window_x"])), abs(float(w["window_y"]))] + ([abs(float(w["dz"]))] if w.get("thick") else [])
+    offs = np.abs(C[0] - o).max()
+    if min(mags) <= 0 or max(mags) / min(mags) > 1e6 or offs > 1e6 * max(mags) or max(mags) > 1e100 or min(mags) < 1e-100:
+        return None
     pos = Vector(*[Array(C[:, d].copy(), unit="cm") for d in range(ndim)])
     val = np.array([7.0])
     lay = Layer(Array(val.copy(), unit="g", name="rho"), aux={"position": pos, "dx": Array(S.copy(), unit="cm")})
